@@ -105,29 +105,30 @@ Proof. exact resolving_lookup_refuted. Qed.
 Print Assumptions C17_resolving_lookup_refuted.
 
 (* The engine's template set as state that survives between calls (Models.Partials,
-   Section Engine: [load] = LoadTemplates(filter) - also what the DebugController does -,
-   [render_eng] = load-on-demand + exact lookup + execution).  On a production-mode engine
-   that holds all templates, ANY history of full loads, filtered reloads (of the page
-   template itself, of a partial, of any prefix, of nothing), renders and partial requests
-   leaves RenderPartials the pure loop with the exact lookup in the tree - so C17_spec_tree,
+   Section Engine: state = (templatesLoaded, compiled template names); [load] =
+   LoadTemplates(filter) - also what the DebugController does -, [render_eng] =
+   load-on-demand + exact lookup + execution; the code after repair dd313c0).  On a
+   production-mode engine that satisfies the invariant [inv] (IF marked as loaded it holds
+   all templates: a fresh engine, an engine after start-up preload), ANY history of full
+   loads, filtered loads (of the page template itself, of a partial, of any prefix, of
+   nothing - also as the very first call), renders and partial requests leaves
+   RenderPartials the pure loop with the exact lookup in the tree - so C17_spec_tree,
    C17_keys, C17_content, C17_error_atomic apply to it. *)
 Theorem C17_reloads_harmless : forall (tree : list bytes) (exec : bytes -> option bytes) s0 (h : list call) t ps,
-  complete tree s0 ->
+  inv tree s0 ->
   snd (render_partialsS tset (render_eng tree exec false)
          (after tset (render_eng tree exec false) (load tree) s0 h) t ps)
   = render_partials (render_lookup tree exec) t ps.
 Proof. exact reloads_harmless. Qed.
 Print Assumptions C17_reloads_harmless.
 
-(* the same for an engine that never loaded, provided the first call that touches the
-   template set is not a filtered load ([hist_ok]) *)
-Theorem C17_fresh_engine_history : forall (tree : list bytes) (exec : bytes -> option bytes) (h : list call) t ps,
-  hist_ok h = true ->
+(* in particular: an engine that never loaded, after EVERY history - no hypothesis *)
+Theorem C17_every_history : forall (tree : list bytes) (exec : bytes -> option bytes) (h : list call) t ps,
   snd (render_partialsS tset (render_eng tree exec false)
-         (after tset (render_eng tree exec false) (load tree) None h) t ps)
+         (after tset (render_eng tree exec false) (load tree) fresh h) t ps)
   = render_partials (render_lookup tree exec) t ps.
-Proof. exact fresh_engine_history. Qed.
-Print Assumptions C17_fresh_engine_history.
+Proof. exact every_history. Qed.
+Print Assumptions C17_every_history.
 
 (* debug mode (every render reloads the templates its own name is a prefix of): in every
    state of the engine, hence after every history *)
@@ -137,28 +138,30 @@ Theorem C17_debug_engine : forall (tree : list bytes) (exec : bytes -> option by
 Proof. exact debug_engine_any_state. Qed.
 Print Assumptions C17_debug_engine.
 
-(* [hist_ok] is needed: a filtered load as the first call marks a production engine as
-   loaded with the filtered templates only; existing partials are then reported missing *)
-Theorem C17_filtered_first_refuted :
+(* the repair is needed: a loader that marks the engine as loaded on every load (the code
+   before dd313c0, [load_unrepaired]) leaves a production engine whose first call is a
+   filtered load with the filtered templates only; existing partials are then reported missing *)
+Theorem C17_filtered_first_unrepaired_refuted :
   exists f ps,
     (forall p, In p ps -> partial_exists nv_tree (B "cart") p = true) /\
     snd (render_partialsS tset (render_eng nv_tree nv_exec false)
-           (after tset (render_eng nv_tree nv_exec false) (load nv_tree) None [CLoad f]) (B "cart") ps) = None /\
-    render_partials (render_lookup nv_tree nv_exec) (B "cart") ps <> None.
-Proof. exact filtered_first_refuted. Qed.
-Print Assumptions C17_filtered_first_refuted.
+           (after tset (render_eng nv_tree nv_exec false) (load_unrepaired nv_tree) fresh [CLoad f]) (B "cart") ps) = None /\
+    snd (render_partialsS tset (render_eng nv_tree nv_exec false)
+           (after tset (render_eng nv_tree nv_exec false) (load nv_tree) fresh [CLoad f]) (B "cart") ps) <> None.
+Proof. exact filtered_first_unrepaired_refuted. Qed.
+Print Assumptions C17_filtered_first_unrepaired_refuted.
 
 (* the prefix rule of compileDir is needed: a filtered load that compiles only the template
    whose name equals the filter loses the partials of the page on LoadTemplates(page) *)
 Theorem C17_exact_reload_refuted :
   exists ps,
     (forall p, In p ps -> partial_exists nv_tree (B "cart") p = true) /\
-    complete nv_tree (Some nv_tree) /\
+    complete nv_tree (true, Some nv_tree) /\
     snd (render_partialsS tset (render_eng nv_tree nv_exec false)
-           (after tset (render_eng nv_tree nv_exec false) (load_exact nv_tree) (Some nv_tree) [CLoad (B "cart")])
+           (after tset (render_eng nv_tree nv_exec false) (load_exact nv_tree) (true, Some nv_tree) [CLoad (B "cart")])
            (B "cart") ps) = None /\
     snd (render_partialsS tset (render_eng nv_tree nv_exec false)
-           (after tset (render_eng nv_tree nv_exec false) (load nv_tree) (Some nv_tree) [CLoad (B "cart")])
+           (after tset (render_eng nv_tree nv_exec false) (load nv_tree) (true, Some nv_tree) [CLoad (B "cart")])
            (B "cart") ps) <> None.
 Proof. exact exact_reload_refuted. Qed.
 Print Assumptions C17_exact_reload_refuted.
